@@ -1,5 +1,6 @@
 import PharmpyModel.Core.Sexp
 import PharmpyModel.C20.Spec
+import PharmpyModel.C20.Cov
 open Pharmpy Pharmpy.C20 Pharmpy.C20.Spec
 
 def bad : Sexp := .list [.atom "err", .atom "bad-op"]
@@ -84,6 +85,27 @@ def views (t : Table) : Sexp :=
         | .ok (ids, ns, ms) => .list [.list (ids.map sOpt), sStrs ns, .list (ms.map sRows)]
         | .error e => sErr e)]
 
+def rat? : Sexp → Option Rat
+  | .atom s =>
+    match s.splitOn "/" with
+    | [n] => n.toInt?.map (fun i => (i : Rat))
+    | [n, d] => do
+      let n ← n.toInt?
+      let d ← d.toNat?
+      if d == 0 then none else pure (mkRat n d)
+    | _ => none
+  | _ => none
+
+def sRat (r : Rat) : Sexp := .atom (toString r.num ++ "/" ++ toString r.den)
+
+def ratRows? (s : Sexp) : Option (List (List Rat)) :=
+  s.asList?.bind (·.mapM (fun r => r.asList?.bind (·.mapM rat?)))
+
+def ratPairs? (s : Sexp) : Option (List (Rat × Rat)) :=
+  s.asList?.bind (·.mapM (fun p => match p with
+    | .list [a, b] => do pure ((← rat? a), (← rat? b))
+    | _ => none))
+
 def handle (req : Sexp) : Sexp :=
   match req with
   | .list [.atom "file", k, nt, nl, .list ls] =>
@@ -119,6 +141,14 @@ def handle (req : Sexp) : Sexp :=
   | .list [.atom "subobj", .atom t] => sStr (subOBJ t.toList)
   | .list [.atom "rename", .atom t] => sStr (renameTheta t.toList)
   | .list [.atom "split", .atom t] => sStrs (splitWs t.toList)
+  | .list [.atom "cov2corr", rows, table] =>
+    match ratRows? rows, ratPairs? table with
+    | some rows, some table => .list ((cov2corr (ratOps table) rows).map (fun r => .list (r.map sRat)))
+    | _, _ => bad
+  | .list [.atom "corr2cov", rows, sd] =>
+    match ratRows? rows, sd.asList?.bind (·.mapM rat?) with
+    | some rows, some sd => .list ((corr2cov (ratOps []) rows sd).map (fun r => .list (r.map sRat)))
+    | _, _ => bad
   | .list [.atom "fts", .list xs] =>
     match xs.mapM str? with
     | some xs => match flattenedToSymmetric (['0']) xs with
